@@ -311,10 +311,14 @@ class Server:
         uid = id(fut)
 
         with self._pipeline_notfull:
-            if len(pipeline) >= self._capacity:
+            while len(pipeline) >= self._capacity:
+                # Re-check after every wake-up: another caller may have taken
+                # the freed slot between the notification and our re-acquiring the lock.
                 if backpressure:
                     raise ServerBacklogFull(len(pipeline))
-                if not self._pipeline_notfull.wait(timeout * 0.99):
+                if not self._pipeline_notfull.wait(
+                    timeout * 0.99 - (perf_counter() - t0)
+                ):
                     raise ServerBacklogFull(len(pipeline), perf_counter() - t0)
 
             self._input_buffer.put((uid, x))
@@ -548,14 +552,17 @@ class AsyncServer:
         uid = id(fut)
 
         async with self._pipeline_notfull:
-            if len(pipeline) >= self._capacity:
+            while len(pipeline) >= self._capacity:
+                # Re-check after every wake-up: another caller may have taken
+                # the freed slot in the meantime.
                 if backpressure:
                     raise ServerBacklogFull(len(pipeline))
                     # If this is behind a HTTP service, should return
                     # code 503 (Service Unavailable) to client.
                 try:
                     await asyncio.wait_for(
-                        self._pipeline_notfull.wait(), timeout * 0.99
+                        self._pipeline_notfull.wait(),
+                        timeout * 0.99 - (perf_counter() - t0),
                     )
                 except (
                     asyncio.TimeoutError,
